@@ -1,0 +1,10 @@
+//go:build verif
+
+// Contracts of this package for the govc verification-condition generator (/verif).
+// Comment-only file: it adds no declarations and is not even parsed without the `verif` tag.
+
+package transport
+
+// C16. Lock discipline: which mutex guards which fields.
+//@ type RequestHeader
+//@   guarded_by (mu) header
